@@ -32,6 +32,15 @@ def impl_replay(case):
             SSASimulator().py_simulate(I, T)
             if case["kind"] == "dssa": DelaySSASimulator().py_delay_simulate(I, ArrayDelayQueue.setup_queue(I.py_get_num_reactions(), len(T), dt), T)
         except Exception: pass
+        # ... and so must an earlier run of the volume-aware simulators (seeded changes S4_C06 / S4_C08: the volume simulator added the
+        # delayed stoichiometry to the model's own update array in place)
+        try:
+            wv = Volume(); wv.py_set_volume(1.0)
+            VolumeSSASimulator().py_volume_simulate(I, wv, T)
+            if case["kind"] in ("dssa", "dvssa"):
+                wv2 = Volume(); wv2.py_set_volume(1.0)
+                DelayVolumeSSASimulator().py_delay_volume_simulate(I, ArrayDelayQueue.setup_queue(I.py_get_num_reactions(), len(T), dt), wv2, T)
+        except Exception: pass
     py_seed_random(seed)
     pre = 0
     if case["kind"] == "ssa":
